@@ -170,7 +170,7 @@ ENGINE_MC = [("EngineMC", "EngineMC.cfg", "hold", ("quick", "thorough")),
 
 
 def engine_check(pid, tier, seed, replay, gen, rule, design_ref, assumptions, keep=False, mc=ENGINE_MC, events=core.ENGINE_EVENTS,
-                 module="EngineTrace", cfg=TRACE_CFG, env=None, extra=()):
+                 module="EngineTrace", cfg=TRACE_CFG, env=None, extra=(), more_traces=None):
     t0 = time.time()
     if replay:
         with open(replay) as f:
@@ -183,6 +183,11 @@ def engine_check(pid, tier, seed, replay, gen, rule, design_ref, assumptions, ke
     wd = core.scratch("verif-run-")
     try:
         paths = run_scenarios_parallel(binary, scenarios, events, wd, env=env, extra=extra)
+        if more_traces and not replay:
+            extra_scen, extra_paths = more_traces(binary, wd)
+            paths += extra_paths
+            for s in extra_scen:
+                by_id[s["id"]] = s
         if keep:
             shutil.copytree(wd, os.path.join("/tmp", f"keep-{pid}"), dirs_exist_ok=True)
         t1 = time.time()
@@ -263,7 +268,20 @@ def c07(tier, seed, replay, keep):
 
 
 def c09(tier, seed, replay, keep):
-    return engine_check("C09", tier, seed, replay, scen.c09, rule_any, "4/C09", ASSUME_COMMON, keep)
+    def deadline_runs(binary, wd):
+        # each of these needs its own process: the harness binary itself runs under a test deadline (-test.timeout)
+        sc = scen.c09_deadline(tier, seed)
+        paths = []
+        with cf.ThreadPoolExecutor(max_workers=len(sc)) as ex:
+            def one(j):
+                out = os.path.join(wd, f"deadline{j}.ndjson")
+                core.run_harness(binary, [sc[j]], out, core.ENGINE_EVENTS, timeout=120, extra=("-test.timeout", "9s"))
+                return out
+            paths = list(ex.map(one, range(len(sc))))
+        return sc, paths
+    return engine_check("C09", tier, seed, replay, scen.c09, rule_any, "4/C09", ASSUME_COMMON + [
+        "two scenarios run MakeCheck under a real test deadline (-test.timeout=9s, 300 ms per test case): timing-dependent, "
+        "they only require the documented rule (early exit passes only with at least one valid case)"], keep, more_traces=deadline_runs)
 
 
 def c11(tier, seed, replay, keep):
